@@ -17,7 +17,7 @@ import tempfile
 
 from ..core import Atom, Check, Driver, MachineryError, VERIF, sx
 
-KINDS = ["sparse", "dense", "scalar"]
+KINDS = ["sparse", "dense", "scalar", "sparse2", "sparse2empty"]
 
 
 def alphabet(names, kinds):
@@ -58,8 +58,8 @@ def run(chk: Check, drv: Driver):
     hist = []
     L = 3 if quick else 4
     for n in range(0, L + 1):
-        for first in (["eval", 0, "sparse"], ["eval", 0, "dense"]):
-            if n >= 3 and not quick and first[2] == "dense":
+        for first in (["eval", 0, "sparse"], ["eval", 0, "dense"], ["eval", 0, "sparse2empty"]):
+            if n >= 3 and first[2] != "sparse":
                 continue
             for tail in itertools.product(ops, repeat=n):
                 hist.append([first] + [list(t) for t in tail])
